@@ -15,6 +15,7 @@ import (
 	"testing"
 	"time"
 
+	"github.com/superfly/litefs"
 	"github.com/superfly/litefs/verif/cluster"
 	"github.com/superfly/litefs/verif/crash"
 	"github.com/superfly/litefs/verif/gen"
@@ -64,15 +65,27 @@ type ReplicaPlan struct {
 	PageSize uint32        `json:"page_size"`
 	Mode     string        `json:"mode"`
 	Setup    []pager.WalTx `json:"setup"`
-	Role     int           `json:"role"` // 0 connected replica, 1 replica whose primary went away, 2 demoted former primary
+	Role     int           `json:"role"` // 0 connected replica, 1 replica whose primary went away, 2 demoted former primary, 3 replica whose halt-lock acquisition failed, 4 replica that held the halt lock and released it
 	Ops      []Op          `json:"ops"`
+	HaltFail string        `json:"halt_fail,omitempty"` // role 3: "timeout" (the node's own acquisition time-out) or "cancel" (the application gives up waiting)
+	Forward  bool          `json:"forward,omitempty"`   // role 4: a transaction is forwarded while the lock is held
+	Promote  bool          `json:"promote,omitempty"`   // roles 3, 4: afterwards the node becomes primary and must be able to commit
 }
 
 func genReplicaPlan(t *rapid.T) ReplicaPlan {
 	p := ReplicaPlan{
 		PageSize: rapid.SampledFrom([]uint32{512, 1024, 4096}).Draw(t, "page_size"),
 		Mode:     rapid.SampledFrom([]string{pager.Delete, pager.Truncate, pager.Persist, pager.WAL, pager.WAL}).Draw(t, "mode"),
-		Role:     rapid.IntRange(0, 2).Draw(t, "role"),
+		Role:     rapid.SampledFrom([]int{0, 0, 1, 2, 2, 3, 3, 4}).Draw(t, "role"),
+	}
+	if p.Role == 3 {
+		p.HaltFail = rapid.SampledFrom([]string{"timeout", "cancel"}).Draw(t, "halt_fail")
+	}
+	if p.Role == 4 {
+		p.Forward = rapid.Bool().Draw(t, "forward")
+	}
+	if p.Role >= 3 {
+		p.Promote = rapid.Bool().Draw(t, "promote")
 	}
 	ns := rapid.IntRange(1, 3).Draw(t, "nsetup")
 	for i, tx := range gen.Txs(t, ns, 40) {
@@ -140,7 +153,12 @@ func runReplicaPlan(c *pbt.Case, p ReplicaPlan) {
 	cl := cluster.New(base, 30*time.Millisecond)
 	c.Cleanup(cl.Close)
 	cl.DBs[dbName] = &cluster.DBConfig{Name: dbName, PageSize: p.PageSize, JournalMode: p.Mode, Sync: pager.SyncNormal, Sector: 512}
-	n0, err := cl.AddNode("n0", cluster.NodeOpts{Candidate: true})
+	// (a halt lock whose release never reaches the primary is dropped there after its time to live)
+	n0, err := cl.AddNode("n0", cluster.NodeOpts{Candidate: true, Configure: func(s *litefs.Store) {
+		if p.Role == 3 {
+			s.HaltLockTTL, s.HaltLockMonitorInterval = 150*time.Millisecond, 10*time.Millisecond
+		}
+	}})
 	if err != nil {
 		c.Failf("C07/setup", "%v", err)
 	}
@@ -148,7 +166,12 @@ func runReplicaPlan(c *pbt.Case, p ReplicaPlan) {
 		c.Failf("C07/setup", "%v", err)
 	}
 	// a replica that may take the lease itself would legitimately gain write authority
-	n1, err := cl.AddNode("n1", cluster.NodeOpts{Candidate: p.Role == 2})
+	// (it cannot while n0 holds the lease, which only the script takes away)
+	n1, err := cl.AddNode("n1", cluster.NodeOpts{Candidate: p.Role >= 2, Configure: func(s *litefs.Store) {
+		if p.Role == 3 && p.HaltFail == "timeout" {
+			s.HaltAcquireTimeout = 40 * time.Millisecond
+		}
+	}})
 	if err != nil {
 		c.Failf("C07/setup", "%v", err)
 	}
@@ -176,6 +199,63 @@ func runReplicaPlan(c *pbt.Case, p ReplicaPlan) {
 		for w := 0; w < 5000 && n1.Store.SubscriberByNodeID(n0.Store.ID()) == nil; w++ {
 			time.Sleep(time.Millisecond)
 		}
+	case 3:
+		// The application asks for the halt lock while this node cannot catch up to the
+		// position the lock is granted at: the acquisition fails, the node holds nothing.
+		n1.FC.Pause()
+		if wr, err := n0.Write(dbName, p.Setup[0]); err != nil || wr.Err != nil {
+			c.Failf("C07/setup", "transaction before the halt: %v %v", err, wr.Err)
+		}
+		n0.CloseConns()
+		lf, err := n1.M.Open(7001, dbName+"-lock")
+		if err != nil {
+			c.Failf("C07/harness", "open lock file: %v", err)
+		}
+		ctx, cancel := context.WithTimeout(context.Background(), 10*time.Second)
+		if p.HaltFail == "cancel" {
+			cancel()
+			ctx, cancel = context.WithTimeout(context.Background(), 40*time.Millisecond)
+		}
+		lerr := lf.SetLkWait(ctx, mount.WrLck, 72, 72)
+		cancel()
+		if lerr == nil {
+			c.Failf("C07/harness", "the halt lock was granted to a node that cannot have reached the primary's position")
+		}
+		_ = lf.Close()
+		n1.FC.Resume()
+		// (No further transaction here: the next one the node receives would make it
+		// forget whatever it remembers of the lock. The grant is released by the node, or
+		// dropped by the primary after its time to live.)
+		if err := cl.WaitConverged(20 * time.Second); err != nil {
+			c.Failf("C07/setup", "%v", err)
+		}
+		c.Labelf("role:halt-acquisition-failed:%s", p.HaltFail)
+	case 4:
+		lf, err := n1.M.Open(7001, dbName+"-lock")
+		if err != nil {
+			c.Failf("C07/harness", "open lock file: %v", err)
+		}
+		ctx, cancel := context.WithTimeout(context.Background(), 10*time.Second)
+		lerr := lf.SetLkWait(ctx, mount.WrLck, 72, 72)
+		cancel()
+		if lerr != nil {
+			c.Failf("C07/setup", "the halt lock was not granted: %v", lerr)
+		}
+		if p.Forward {
+			if wr, err := n1.Write(dbName, p.Setup[0]); err != nil || wr.Err != nil {
+				c.Failf("C07/setup", "transaction under the halt lock: %v %v", err, wr.Err)
+			}
+			n1.CloseConns()
+			c.Label("forwarded-commit")
+		}
+		if err := lf.SetLkWait(context.Background(), mount.UnLck, 72, 72); err != nil {
+			c.Failf("C07/setup", "release of the halt lock: %v", err)
+		}
+		_ = lf.Close()
+		if err := cl.WaitConverged(20 * time.Second); err != nil {
+			c.Failf("C07/setup", "%v", err)
+		}
+		c.Label("role:halt-lock-released")
 	default:
 		c.Label("role:connected-replica")
 	}
@@ -195,6 +275,7 @@ func runReplicaPlan(c *pbt.Case, p ReplicaPlan) {
 	m := target.M
 	owner := uint64(4242)
 	files := map[string]*mount.File{}
+	var everOpened []*mount.File // (an unlinked file's handle leaves the map and stays open, as it would in a process)
 	open := func(name string, create bool) *mount.File {
 		if f := files[name]; f != nil {
 			return f
@@ -207,6 +288,7 @@ func runReplicaPlan(c *pbt.Case, p ReplicaPlan) {
 			return nil
 		}
 		files[name] = f
+		everOpened = append(everOpened, f)
 		return f
 	}
 	defer func() {
@@ -261,6 +343,7 @@ func runReplicaPlan(c *pbt.Case, p ReplicaPlan) {
 			mustEACCES = true
 			if f != nil {
 				files[dbName+"-journal"] = f
+				everOpened = append(everOpened, f)
 			}
 		case OJournalWrite, OJournalZero:
 			f := open(dbName+"-journal", false)
@@ -421,6 +504,26 @@ func runReplicaPlan(c *pbt.Case, p ReplicaPlan) {
 			files = map[string]*mount.File{}
 			break
 		}
+	}
+	if p.Role >= 3 && p.Promote && len(target.Exits()) == 0 {
+		// write authority regained the regular way: the node takes the lease
+		// (the application ends: every descriptor it ever had is closed)
+		for _, f := range everOpened {
+			_ = f.Close()
+		}
+		files = map[string]*mount.File{}
+		if err := cl.MakePrimary(target, false, 20*time.Second); err != nil {
+			calls := cl.Svc.Calls()
+			if len(calls) > 8 {
+				calls = calls[len(calls)-8:]
+			}
+			c.Failf("C07/liveness/no-primary", "%v (last lease calls: %+v)", err, calls)
+		}
+		if wr, err := target.Write(dbName, p.Setup[0]); err != nil || wr.Err != nil {
+			c.Failf("C07/primary-cannot-commit", "the node took the lease after its halt lock was gone and a valid transaction is refused: %v %v", err, wr.Err)
+		}
+		target.CloseConns()
+		c.Label("promoted-afterwards")
 	}
 	// the node still holds exactly the committed image
 	res, err := target.Read(dbName)
